@@ -1,17 +1,27 @@
 #!/bin/bash
-# usage: verify_seed.sh <wt dir> <demo name>   (run inside nothing; prints a JSON-ish summary)
+# usage: verify_seed.sh <wt dir> <demo name>   (EXTRA="--features x" optional)
+# verifies a seeded change in both directions; prints SUITE_WITH_CHANGE / DEMO_WITH_CHANGE / DEMO_WITHOUT_CHANGE lines
 WT=$1; DEMO=$2
 cd $WT || exit 2
 [ -f _out/patch.diff ] || { echo "no patch"; exit 2; }
 git checkout -q -- src macros
 git apply _out/patch.diff || { echo "patch does not apply"; exit 2; }
-cp -f _out/$DEMO.rs tests/$DEMO.rs 2>/dev/null
-echo "== with change: full suite (excluding demo)"
-cargo test --workspace --no-fail-fast --offline $EXTRA 2>&1 | grep -E "^test result|Running|FAILED|failed" | grep -v "^test result: ok" | head -20
+rm -f tests/$DEMO.rs
+echo "== with change: full existing suite (demo moved aside)"
+cargo test --workspace --no-fail-fast --offline $EXTRA > /tmp/vs-$DEMO.log 2>&1; rc=$?
+grep -E "^test result" /tmp/vs-$DEMO.log | sort | uniq -c | head -5
+grep -E "FAILED|panicked|error(\[|:)" /tmp/vs-$DEMO.log | head -10
+echo "SUITE_WITH_CHANGE exit=$rc"
+cp -f _out/$DEMO.rs tests/$DEMO.rs
 echo "== with change: demo"
-cargo test --offline $EXTRA --test $DEMO 2>&1 | grep -E "^test result|panicked|FAILED" | head -5
+cargo test --offline $EXTRA --test $DEMO > /tmp/vs-$DEMO.log 2>&1; rc=$?
+grep -E "^test result|panicked|FAILED|^error" /tmp/vs-$DEMO.log | head -8
+echo "DEMO_WITH_CHANGE exit=$rc"
 git checkout -q -- src macros
 echo "== without change: demo"
-cargo test --offline $EXTRA --test $DEMO 2>&1 | grep -E "^test result|panicked|FAILED" | head -5
+cargo test --offline $EXTRA --test $DEMO > /tmp/vs-$DEMO.log 2>&1; rc=$?
+grep -E "^test result|panicked|FAILED|^error" /tmp/vs-$DEMO.log | head -8
+echo "DEMO_WITHOUT_CHANGE exit=$rc"
 git apply _out/patch.diff
+rm -f /tmp/vs-$DEMO.log
 echo "== re-applied"
